@@ -465,11 +465,13 @@ inductive PErr
   | eolIndex                 -- IndexError: `TokenConsumer.eol` / `consume` with no token left
   | noneAttribute            -- AttributeError: an error message about `tokens.next` when there is no token left
   | typedefNoType            -- TypeError: `issubclass(None, Structure)` in `_typedef` without a type
-  | internal                 -- a token value that its own pattern does not match (cannot happen)
+  | rematchAttribute         -- AttributeError: the Unicode-aware pattern of `TOK.patterns` does not match the token value that the
+                             -- scanner (ASCII `\s`) produced: `None.groupdict()`
+  | internal                 -- the step budget of the model ran out (cannot happen: budgets exceed the token count)
   deriving DecidableEq, Repr, Inhabited
 
 def PErr.pyClass : PErr → String
-  | .eolAttribute | .noneAttribute => "AttributeError"
+  | .eolAttribute | .noneAttribute | .rematchAttribute => "AttributeError"
   | .eolIndex => "IndexError"
   | .typedefNoType => "TypeError"
   | .internal => "Internal"
@@ -479,7 +481,7 @@ def PErr.tag : PErr → String
   | .unexpectedToken => "unexpected-token" | .expectedBlock => "expected-block" | .unexpectedAnonStruct => "anonymous-struct"
   | .structNoName => "no-name" | .expectedName => "expected-name" | .typedefBitfield => "typedef-bitfield"
   | .depthRequired => "depth-required" | .eolAttribute => "eol-attribute" | .eolIndex => "eol-index"
-  | .noneAttribute => "none-attribute" | .typedefNoType => "typedef-no-type" | .internal => "internal"
+  | .noneAttribute => "none-attribute" | .rematchAttribute => "rematch-attribute" | .typedefNoType => "typedef-no-type" | .internal => "internal"
 
 -- ------------------------------------------------------------------------------------------------ handlers
 
@@ -542,7 +544,7 @@ def digitsToNat (ds : List Char) : Nat := ds.foldl (fun n c => 10 * n + (c.toNat
     is also refused, by the same test; that depends on resolution and is not in this model.) -/
 def parseDeclarator (text : List Char) : Except PErr Declarator :=
   match matchName isWs (text ++ [';']) with
-  | none => .error .internal
+  | none => .error .rematchAttribute
   | some (m, _, _) =>
     let (depth, nm) := ptrLoop (m.name.length + 1) m.name 0
     let dims := match m.count with
@@ -691,7 +693,7 @@ def enumH : List Tok → Except PErr (Decl × List Tok)
   | [] => .error .eolIndex
   | t :: toks =>
     match matchEnum isWs (t.value ++ [';']) with
-    | none => .error .internal
+    | none => .error .rematchAttribute
     | some (m, _, _) =>
       match eol toks with
       | .error e => .error e
@@ -705,10 +707,10 @@ def declH : List Tok → Except PErr (Decl × List Tok)
     match t.kind with
     | .config => match matchConfig t.value with
       | some (m, _, _) => .ok (.config (splitOn1 ',' m.values), toks)
-      | none => .error .internal
+      | none => .error .rematchAttribute
     | .define => match matchDefine isWs t.value with
       | some (m, _, _) => .ok (.const m.name m.value, toks)
-      | none => .error .internal
+      | none => .error .rematchAttribute
     | .typedef => typedefH (t :: toks)
     | .struct =>
       match structH (3 * toks.length + 7) true (t :: toks) with
@@ -718,7 +720,7 @@ def declH : List Tok → Except PErr (Decl × List Tok)
     | .enum => enumH (t :: toks)
     | .lookup => match matchLookup isWs (t.value ++ [';']) with
       | some (m, _, _) => .ok (.lookup m.name m.value, toks)
-      | none => .error .internal
+      | none => .error .rematchAttribute
     | _ => .error .unexpectedToken
 
 /-- the loop of `parse`: the declarations completed, and the error that ended the parse (if any) -/
